@@ -291,7 +291,7 @@ def run_shard(shard):
                 if runner == "sync":
                     it = [run_once(runf, [])]
                 else:
-                    it = explore(runf, bound=None if (tier == "thorough" or len(cs) <= 3) else 3, max_execs=3000, stats=stats)
+                    it = explore(runf, bound=None if len(cs) <= (4 if tier == "thorough" else 3) else 3, max_execs=3000, stats=stats)
                 for ch, x in it:
                     acc.evaluations += 1
                     acc.outcomes[(cfg["kind"], cfg["entry"], cfg["eh"], x.status)] += 1
